@@ -24,6 +24,8 @@ class Stub(Elaboratable):
         names = ["A", "B"]
         s.trans = {}
         for side, nm in enumerate(names):
+            if side == 1 and c.get("lonely"):
+                continue
             t = Transaction(name=f"T{nm}")
             s.trans[nm] = t
         if kind == "sim_methods":
@@ -39,14 +41,48 @@ class Stub(Elaboratable):
 
                 define()
             s.pair[0].simultaneous(s.pair[1])
+        wrap = c.get("wrapA", 0) if kind == "connect" else 0
+
+        def call_write():
+            ret = s.conn.write(m, x=s.sig["argA"]) if c["w"] else s.conn.write(m)
+            if c["w2"]:
+                m.d.top_comb += s.sig["resA"].eq(ret.y)
+
+        entry = None
+        if wrap:
+            # Connect.write is reached through `wrap` methods; the innermost calls it unconditionally, the guard
+            # (enable_call / m.If) sits at the transaction's call of the outermost wrapper
+            from transactron import Method
+
+            prev = None
+            for d in reversed(range(wrap)):
+                wm = Method(name=f"W{d}")
+
+                def define(wm=wm, prev=prev):
+                    @def_method(m, wm)
+                    def _():
+                        if prev is None:
+                            call_write()
+                        else:
+                            prev(m)
+
+                define()
+                prev = wm
+            entry = prev
         for side, nm in enumerate(names):
+            if side == 1 and c.get("lonely"):
+                continue  # nobody calls this side
             t = s.trans[nm]
             with t.body(m, ready=s.sig[f"rdy{nm}"]):
                 if kind == "connect":
-                    if side == 0:
-                        ret = s.conn.write(m, x=s.sig["argA"]) if c["w"] else s.conn.write(m)
-                        if c["w2"]:
-                            m.d.top_comb += s.sig["resA"].eq(ret.y)
+                    if side == 0 and wrap:
+                        if c.get("guard_if"):
+                            with m.If(s.sig["guardA"]):
+                                entry(m)
+                        else:
+                            entry(m, enable_call=s.sig["guardA"])
+                    elif side == 0:
+                        call_write()
                     else:
                         ret = s.conn.read(m, y=s.sig["argB"]) if c["w2"] else s.conn.read(m)
                         if c["w"]:
@@ -84,6 +120,8 @@ class Scen(CompScenario):
 
         for nm in "AB":
             inp(f"rdy{nm}")
+        if c.get("wrapA") and c["kind"] == "connect":
+            inp("guardA")
         if c.get("third") is not None:
             inp("rdyX")
         w, w2 = c["w"], c["w2"]
@@ -138,8 +176,19 @@ class Scen(CompScenario):
                 stim[name] = rng.getrandbits(w)
         return stim
 
+    def on_elab_error(self, e):
+        # a simultaneity constraint on a conditionally called method is documented as unsupported: rejecting the
+        # design is fine, accepting it obliges the library to keep the two bodies together
+        if self.cfg.get("wrapA") and isinstance(e, RuntimeError) and "not supported" in str(e):
+            self.hit("conditionally_called_simultaneous_method_rejected")
+            self.visit(("rejected", self.cfg.get("wrapA")), nontrivial=True)
+            return True
+        return False
+
     def check(self, cyc, stim, obs):
         c = self.cfg
+        if c["kind"] == "connect" and (c.get("wrapA") or c.get("lonely")):
+            return self.check_special(cyc, stim, obs)
         ra, rb = obs["TA.run"], obs["TB.run"]
         ex = c["extras"]
 
@@ -189,6 +238,30 @@ class Scen(CompScenario):
         self.visit((ea, eb, ra, rx), nontrivial=bool(ea or eb))
 
 
+    def check_special(self, cyc, stim, obs):
+        """Connect whose write side is reached through wrapper methods under a guard, or whose read side has no
+        caller at all: only the statement's two clauses apply."""
+        c = self.cfg
+        wr, rd = obs["write.run"], obs["read.run"]
+        self.expect(wr == rd, "simultaneous-bodies-not-together", f"Connect.write.run={wr} read.run={rd} "
+                    f"(wrapper depth {c.get('wrapA', 0)}, read side uncalled={bool(c.get('lonely'))}, guard={stim.get('guardA')})")
+        if c.get("lonely"):
+            self.expect(not obs["TA.run"] or c.get("wrapA"), "simultaneous-bodies-not-together",
+                        "the caller of Connect.write runs although Connect.read has no caller and never runs")
+            self.hit("lonely_side_requested" if stim.get("rdyA") else "lonely_side_idle")
+        if wr and rd:
+            if c["w"]:
+                self.expect(obs["resB"] == stim.get("argA", 0), "simultaneous-data-mismatch",
+                            f"read returned {obs['resB']}, write was called with {stim.get('argA', 0)}", direction="forward")
+            if c["w2"]:
+                self.expect(obs["resA"] == stim.get("argB", 0), "simultaneous-data-mismatch",
+                            f"write returned {obs['resA']}, read was called with {stim.get('argB', 0)}", direction="reverse")
+            self.hit("exchange_through_wrapper" if c.get("wrapA") else "exchange")
+        if c.get("wrapA") and obs["TA.run"] and not stim.get("guardA"):
+            self.hit("wrapper_caller_ran_with_guard_low")
+        self.visit((bool(wr), bool(rd), obs["TA.run"], stim.get("guardA", 0)), nontrivial=bool(stim.get("rdyA")))
+
+
 class Prop(PropBase):
     ID = "C13"
     tiers = {"quick": {"runs": 480, "selftest_runs": 4}, "thorough": {"runs": 10000, "selftest_runs": 32}}
@@ -196,7 +269,8 @@ class Prop(PropBase):
             "transactions related by simultaneous(); each caller also calls 0-2 other methods (real Adapters with free readiness), "
             "optionally a third transaction shares one of them; 60-200 cycles; distinct = (configuration, side A enabled, side B "
             "enabled, pair ran, third ran); non-trivial = at least one side enabled")
-    expected_cov = ["exchange", "pair_ran", "only_one_side_enabled", "blocked_by_third_transaction"]
+    expected_cov = ["exchange", "pair_ran", "only_one_side_enabled", "blocked_by_third_transaction", "lonely_side_requested",
+                    "conditionally_called_simultaneous_method_rejected"]
     real = ["transactron.lib.connectors.Connect", "TransactionBase.simultaneous + TransactionManager._simultaneous", "transactron.lib.adapters.Adapter", "both schedulers"]
     stubs = ["caller transactions (stub Elaboratable)", "cycle driver", "oracle"]
     search_space = "Connect / simultaneous() designs x readiness histories of the callers' other methods"
@@ -214,7 +288,14 @@ class Prop(PropBase):
         third = rng.choice(used) if used and rng.random() < 0.4 else None
         w, w2 = rng.choice([(4, 3), (4, 0), (0, 3), (6, 6)]) if kind == "connect" else (4, 4)
         cycles = rng.randint(60, 200)
-        return {"kind": kind, "w": w, "w2": w2, "nextra": nextra, "extras": extras, "third": third,
+        special = {}
+        if kind == "connect" and rng.random() < 0.3:
+            if rng.random() < 0.5:
+                special = {"lonely": 1}
+            else:
+                special = {"wrapA": rng.choice([1, 2, 2, 3]), "guard_if": int(rng.random() < 0.5)}
+            third = None
+        return {**special, "kind": kind, "w": w, "w2": w2, "nextra": nextra, "extras": extras, "third": third,
                 "sched": rng.choice(["eager", "eager", "rr"]), "cycles": cycles,
                 "plan": make_plan(rng, cycles, ["random", "random", "allon", "stall"])}
 
